@@ -22,6 +22,21 @@ PointBad(o, a, d, anti, pt) ==
   \cup (IF ~CNear(pt.der2, pt.der, HB(d, pt.x)) THEN {"derivative_polynomial_agrees_with_evaluate_derivative"} ELSE {})
   \cup (IF ~CNear(pt.anti, PEval(anti, pt.x), HB(anti, pt.x)) THEN {"antiderivative_is_termwise_antiderivative"} ELSE {})
 
+(***************************************************************************)
+(* API surface beyond the listed properties (the specification keeps       *)
+(* growing): conversions keep the coefficients, zero tests, constructors   *)
+(* of the zero polynomial, tolerance validation.                           *)
+(***************************************************************************)
+MiscBad(o, m) ==
+  (IF m.make_complex # o.a THEN {"make_complex_keeps_every_coefficient"} ELSE {})
+  \cup (IF m.mc_tol # o.ta \/ m.get_tol # o.ta THEN {"tolerance_is_kept"} ELSE {})
+  \cup (IF m.is_zero # (\A k \in 1..Len(o.a) : CIsZero(o.a[k])) THEN {"is_zero_iff_all_coefficients_vanish"} ELSE {})
+  \cup (IF m.from_scalar # <<o.a[Len(o.a)]>> THEN {"from_scalar_is_the_constant_polynomial"} ELSE {})
+  \cup (IF ~(m.new_is_zero /\ m.cap_is_zero /\ m.default_is_zero) THEN {"constructors_give_the_zero_polynomial"} ELSE {})
+  \cup (IF ~(m.with_tol_neg_err /\ m.set_tol_neg_err) THEN {"negative_zero_tolerance_is_rejected"} ELSE {})
+  \cup (IF ~(m.with_tol_pos_ok /\ m.set_tol_pos_ok) THEN {"positive_zero_tolerance_is_stored"} ELSE {})
+  \cup (IF ~m.macro_same THEN {"polynomial_macro_equals_from_slice"} ELSE {})
+
 Check(o) ==
   IF o.st # "ok" THEN {"never_panics"}
   ELSE Bind(PDeriv(o.a), LAMBDA d : Bind(PAnti(o.a, o.cst), LAMBDA anti : Bind(PAnti(o.a, C0), LAMBDA anti0 :
@@ -35,7 +50,8 @@ Check(o) ==
        \cup (IF ~CNear(ob.int_lo_hi, CSub(PEval(anti0, o.hi), PEval(anti0, o.lo)), ib) THEN {"integral_matches_termwise_calculus"} ELSE {})
        \cup (IF ~CNear(CAdd(ob.int_lo_mid, ob.int_mid_hi), ob.int_lo_hi, FMul(F2, ib)) THEN {"integral_additive_over_adjacent_intervals"} ELSE {})
        \cup (IF ob.roundtrip # o.a THEN {"from_slice_round_trips"} ELSE {})
-       \cup (IF ob.order # Len(o.a) - 1 THEN {"order_consistent_with_coefficients"} ELSE {}))))
+       \cup (IF ob.order # Len(o.a) - 1 THEN {"order_consistent_with_coefficients"} ELSE {})
+       \cup MiscBad(o, ob.misc))))
 
 VARIABLE i
 Init == i = 0
